@@ -39,6 +39,8 @@ type glTarget struct {
 	opaque   map[string]bool // package-level functions kept as parameters
 	drop     map[string]bool // package-level functions whose calls are dropped (logging helpers)
 	listElem string          // value type of the container/list elements this function handles (repo struct name)
+	nilPtrs  bool            // pointers returned by opaque functions may be nil (Option); without it they are assumed valid, as the callers in the code do
+	lit      bool            // translate the function literal this function returns (its captured variables — the parameters of the function — come first)
 	trace    bool            // also record, in program order, the calls of the opaque functions (they read or write the connections they are given)
 }
 
@@ -62,6 +64,7 @@ var glTargets = []glTarget{
 	{pkg: "service", recv: "", name: "MakeCipherEntry", opaque: map[string]bool{"NewServerSaltGenerator": true}},
 	{pkg: "service", recv: "", name: "findAccessKeyUDP", listElem: "CipherEntry", opaque: map[string]bool{"Unpack": true}, drop: map[string]bool{"debugUDP": true}},
 	{pkg: "service", recv: "", name: "drainErrToString"},
+	{pkg: "service", recv: "", name: "NewShadowsocksStreamAuthenticator", lit: true, nilPtrs: true, opaque: map[string]bool{"findAccessKey": true, "remoteIP": true, "NewReader": true, "NewWriter": true, "WrapConn": true}},
 	{pkg: "service", recv: "natmap", name: "Get"},
 	{pkg: "service", recv: "natmap", name: "set"},
 	{pkg: "service", recv: "natmap", name: "del"},
@@ -96,6 +99,9 @@ type glFn struct {
 	p       *packages.Package
 	fd      *ast.FuncDecl
 	body    strings.Builder
+	inoutValue bool            // translating a call whose result is used and whose in-outs are written back (see cond)
+	lastRes    string          // the result of that call
+	sig     *types.Signature   // of the translated function (for a literal: of the literal)
 	resAs   map[int]types.Type // interface results translated as the pointer they carry
 	extras  []glExtra // additional parameters (now, opaque functions, interface methods)
 	inouts  []string  // names of receiver / pointer parameters that are threaded through
@@ -593,6 +599,20 @@ func (f *glFn) exprAs(e ast.Expr, t types.Type) string {
 }
 
 func (f *glFn) binary(x *ast.BinaryExpr) string {
+	if (x.Op == token.EQL || x.Op == token.NEQ) && (isNilIdent(x.Y) || isNilIdent(x.X)) {
+		o := x.X
+		if isNilIdent(x.X) {
+			o = x.Y
+		}
+		if id, ok := o.(*ast.Ident); ok {
+			if flag, ok := f.ptrLocal[f.objOf(id)]; ok {
+				if x.Op == token.EQL {
+					return flag
+				}
+				return "(!" + flag + ")"
+			}
+		}
+	}
 	var a, b string
 	switch {
 	case isNilIdent(x.Y):
@@ -946,6 +966,9 @@ func (f *glFn) call(c *ast.CallExpr, value bool) string {
 		return ""
 	}
 	if strings.HasSuffix(full, "outline-ss-server/net.NewConnectionError") {
+		if tv, ok := f.p.TypesInfo.Types[c.Args[0]]; !ok || tv.Value == nil {
+			return "(some " + f.expr(c.Args[0]) + ")" // the status is a variable
+		}
 		return "(some " + f.strLit(c.Args[0]) + ")"
 	}
 	sig := fn.Type().(*types.Signature)
@@ -1069,7 +1092,13 @@ func (f *glFn) call(c *ast.CallExpr, value bool) string {
 		return "(" + lid(fn.Name()) + " " + strings.Join(as, " ") + ")"
 	}
 	if sel != nil {
-		if _, isIface := f.typeOf(sel.X).Underlying().(*types.Interface); isIface || f.isEmbeddedIfaceCall(sel) {
+		_, isIface := f.typeOf(sel.X).Underlying().(*types.Interface)
+		if !isIface && !value && rn != "" && !isRepoPkg(rp) {
+			if _, isId := sel.X.(*ast.Ident); isId && strings.HasPrefix(f.leanType(f.typeOf(sel.X)), "(Opaque ") {
+				isIface = true // an object of another module held by pointer (a *shadowsocks.Writer): a call on it is an effect, as on an interface
+			}
+		}
+		if isIface || f.isEmbeddedIfaceCall(sel) {
 			if !value {
 				// effect: record the call in the root variable's eff field
 				root := f.rootIdent(sel.X)
@@ -1158,11 +1187,15 @@ func (f *glFn) call(c *ast.CallExpr, value bool) string {
 			if _, isChan := f.typeOf(a).Underlying().(*types.Chan); isChan {
 				continue
 			}
+			if b, ok := f.typeOf(a).Underlying().(*types.Basic); ok && b.Info()&types.IsString != 0 && callee.t.strBytes && !f.t.strBytes {
+				as = append(as, "(String.toUTF8 "+f.expr(a)+").toList") // the callee sees strings as their bytes
+				continue
+			}
 			as = append(as, f.expr(a))
 		}
 		name := callee.leanName()
 		if len(callee.inouts) > 0 {
-			if value || callee.nres > 0 {
+			if (value || callee.nres > 0) && !(f.inoutValue && callee.nres == 1) {
 				return f.fail(c, "call of a translated function with in-out parameters in value position")
 			}
 			// the in-outs come back as a tuple: receiver first, then the pointer parameters in order
@@ -1176,12 +1209,17 @@ func (f *glFn) call(c *ast.CallExpr, value bool) string {
 			f.tmp++
 			t := fmt.Sprintf("t__%d", f.tmp)
 			out := "let " + t + " ← " + name + " " + strings.Join(as, " ")
+			total := len(lhs)
+			if f.inoutValue {
+				total += callee.nres
+				f.lastRes = t + strings.Repeat(".2", len(lhs)) // the one result comes after the in-outs
+			}
 			for i, l := range lhs {
 				proj := t
 				for j := 0; j < i; j++ {
 					proj += ".2"
 				}
-				if i < len(lhs)-1 {
+				if i < total-1 {
 					proj += ".1"
 				}
 				out += "\n" + f.assign(l, proj)
@@ -1196,6 +1234,73 @@ func (f *glFn) call(c *ast.CallExpr, value bool) string {
 	return f.fail(c, "call of %s has no meaning in the prelude", full)
 }
 
+// hasInOutCall: the expression calls a translated function that changes its receiver or a pointer argument
+func (f *glFn) hasInOutCall(e ast.Expr) bool {
+	found := false
+	ast.Inspect(e, func(n ast.Node) bool {
+		if c, ok := n.(*ast.CallExpr); ok {
+			if fn, ok := f.calleeObj(c).(*types.Func); ok && fn.Pkg() != nil {
+				_, rn := recvNamed(fn)
+				key := strings.TrimPrefix(fn.Pkg().Path(), "github.com/Jigsaw-Code/outline-ss-server/") + "." + rn + "." + fn.Name()
+				if callee, ok := f.g.fns[key]; ok && len(callee.inouts) > 0 {
+					found = true
+				}
+			}
+		}
+		return true
+	})
+	return found
+}
+
+// cond: a condition.  One that calls a state-changing translated function (`a || !c.Add(..)`) is evaluated step by
+// step, in Go's order and with Go's short-circuit rule, by statements emitted before the `if`; the value is then a variable.
+func (f *glFn) cond(e ast.Expr, ind int) string {
+	if !f.hasInOutCall(e) {
+		return f.expr(e)
+	}
+	switch x := e.(type) {
+	case *ast.ParenExpr:
+		return f.cond(x.X, ind)
+	case *ast.UnaryExpr:
+		if x.Op == token.NOT {
+			return "(!" + f.cond(x.X, ind) + ")"
+		}
+	case *ast.BinaryExpr:
+		if x.Op == token.LOR || x.Op == token.LAND {
+			a := f.cond(x.X, ind)
+			f.tmp++
+			c := fmt.Sprintf("c__%d", f.tmp)
+			f.emit(ind, "let mut "+c+" := "+a)
+			if x.Op == token.LOR {
+				f.emit(ind, "if (!"+c+") then")
+			} else {
+				f.emit(ind, "if "+c+" then")
+			}
+			f.derefGuards(&ast.ExprStmt{X: x.Y}, ind+1)
+			v := f.cond(x.Y, ind+1)
+			f.emit(ind+1, c+" := "+v)
+			return c
+		}
+	case *ast.CallExpr:
+		f.inoutValue = true
+		out := f.call(x, true)
+		f.inoutValue = false
+		f.emit(ind, out)
+		return f.lastRes
+	}
+	return f.fail(e, "condition with a state-changing call")
+}
+
+// isOpaqueCall: a call of a function that is a parameter of the translation
+func (f *glFn) isOpaqueCall(e ast.Expr) bool {
+	c, ok := e.(*ast.CallExpr)
+	if !ok {
+		return false
+	}
+	fn, ok := f.calleeObj(c).(*types.Func)
+	return ok && f.t.opaque[fn.Name()]
+}
+
 func (f *glFn) strLit(e ast.Expr) string {
 	if tv, ok := f.p.TypesInfo.Types[e]; ok && tv.Value != nil && tv.Value.Kind() == constant.String {
 		return leanStr(constant.StringVal(tv.Value))
@@ -1206,6 +1311,10 @@ func (f *glFn) strLit(e ast.Expr) string {
 func (f *glFn) resultType(sig *types.Signature) string {
 	var rs []string
 	for i := 0; i < sig.Results().Len(); i++ {
+		if rt := sig.Results().At(i).Type(); isPtrToRepoStruct(rt) && f.t.nilPtrs {
+			rs = append(rs, "(Option "+f.leanType(rt)+")") // a pointer an opaque function returns may be nil
+			continue
+		}
 		rs = append(rs, f.leanType(sig.Results().At(i).Type()))
 	}
 	if len(rs) == 0 {
@@ -1698,6 +1807,18 @@ func (f *glFn) stmt(s ast.Stmt, ind int) {
 				if i < len(x.Lhs)-1 {
 					proj += ".1"
 				}
+				if obj := f.objOf(x.Lhs[i]); obj != nil && isPtrToRepoStruct(obj.Type()) && f.t.nilPtrs && f.isOpaqueCall(x.Rhs[0]) {
+					// a pointer from an opaque function: the value it points to and whether it is nil
+					f.emit(ind, f.defOrAssign(x, i, "("+proj+").getD "+f.g.zero(obj.Type(), f.t.strBytes)))
+					_, had := f.ptrLocal[obj]
+					flag := f.nilFlag(obj)
+					if had {
+						f.emit(ind, flag+" := ("+proj+").isNone")
+					} else {
+						f.emit(ind, "let mut "+flag+" := ("+proj+").isNone")
+					}
+					continue
+				}
 				f.emit(ind, f.defOrAssign(x, i, proj))
 			}
 			return
@@ -1793,7 +1914,7 @@ func (f *glFn) stmt(s ast.Stmt, ind int) {
 		if x.Init != nil {
 			f.stmt(x.Init, ind)
 		}
-		f.emit(ind, "if "+f.expr(x.Cond)+" then")
+		f.emit(ind, "if "+f.cond(x.Cond, ind)+" then")
 		before := f.copyAlias()
 		f.block(x.Body.List, ind+1)
 		afterThen := f.copyAlias()
@@ -1853,7 +1974,7 @@ func (f *glFn) stmt(s ast.Stmt, ind int) {
 		for _, io := range f.inouts {
 			parts = append(parts, lid(io))
 		}
-		rsig := f.p.TypesInfo.Defs[f.fd.Name].Type().(*types.Signature).Results()
+		rsig := f.sigOf().Results()
 		if len(x.Results) == 0 && rsig.Len() > 0 {
 			f.fail(x, "bare return with named results")
 		}
@@ -2238,9 +2359,39 @@ func (f *glFn) leanName() string {
 	return lid(f.t.name)
 }
 
+func (f *glFn) sigOf() *types.Signature {
+	if f.sig != nil {
+		return f.sig
+	}
+	return f.p.TypesInfo.Defs[f.fd.Name].Type().(*types.Signature)
+}
+
+// literalOf: for a `lit` target, the declaration that stands for the one function literal the function returns: the
+// parameters of the function (the variables the literal captures) followed by the literal's own, and the literal's body.
+// The statements of the function before that return are not translated (they replace nil collaborators by no-op ones).
+func literalOf(p *packages.Package, fd *ast.FuncDecl) (*ast.FuncDecl, *types.Signature) {
+	var lit *ast.FuncLit
+	for _, st := range fd.Body.List {
+		if r, ok := st.(*ast.ReturnStmt); ok && len(r.Results) == 1 {
+			if l, ok := r.Results[0].(*ast.FuncLit); ok {
+				lit = l
+			}
+		}
+	}
+	if lit == nil {
+		return nil, nil
+	}
+	params := &ast.FieldList{}
+	params.List = append(params.List, fd.Type.Params.List...)
+	params.List = append(params.List, lit.Type.Params.List...)
+	nd := &ast.FuncDecl{Name: fd.Name, Type: &ast.FuncType{Params: params, Results: lit.Type.Results}, Body: lit.Body}
+	sg, _ := p.TypesInfo.TypeOf(lit).(*types.Signature)
+	return nd, sg
+}
+
 func (f *glFn) translate() {
 	fd := f.fd
-	sig := f.p.TypesInfo.Defs[fd.Name].Type().(*types.Signature)
+	sig := f.sigOf()
 	// the receiver and the parameters keep their names; later variables of the same name get a suffix
 	if fd.Recv != nil {
 		for _, n := range fd.Recv.List[0].Names {
@@ -2495,6 +2646,14 @@ func genCode() {
 			continue
 		}
 		f := &glFn{t: t, p: p, fd: fd, g: g}
+		if t.lit {
+			nd, sg := literalOf(p, fd)
+			if nd == nil || sg == nil {
+				miss("golean: %s.%s does not return a function literal", t.pkg, t.name)
+				continue
+			}
+			f.fd, f.sig = nd, sg
+		}
 		g.curListElem = t.listElem
 		f.translate()
 		key := t.pkg + "." + t.recv + "." + t.name
